@@ -783,7 +783,7 @@ func Explore(t *testing.T, sc Scenario, opt Options, check func(x *Exec)) Stats 
 		if opt.BeforeExec != nil {
 			opt.BeforeExec(w.prefix)
 		}
-		for try := 0; try < 6; try++ {
+		for try := 0; try < 15; try++ {
 			x = runOne(t, &sc, &opt, w.prefix)
 			if !x.Diverged {
 				break
